@@ -779,12 +779,10 @@ class file_archive(archive):
                 open(_filename, 'wb').write(_b('memo = %s' % repr(memo)))
         except OSError:
             "failed to populate file for %s" % str(filename)
-        # move the results to the proper place
+        # move the results to the proper place (in one step: the archive
+        # is never without its file, whenever the process is interrupted)
         try:
-            os.remove(filename)
-        except: pass
-        try:
-            os.renames(_filename, filename)
+            os.replace(_filename, filename)
         except OSError:
             "error in populating %s" % str(filename)
         return
